@@ -12,6 +12,9 @@ def run(ctx):
     # into a hello that was already built): partners = a TLS 1.2-only parrot, a TLS 1.3 parrot, a post-quantum parrot
     partners = ["Firefox-55", "Chrome-133", "Chrome-58"] if ctx.quick else ids
     cases += [{"id": i, "sni": snis[0], "n": 1, "omit": True, "tag": "shared", "shared_with": b} for i in ids for b in partners if b != i]
+    # version bounds left in the caller's Config must not leak into the hello of a predefined parrot
+    for lo, hi in ((0x301, 0x302), (0x301, 0x301), (0x303, 0x303), (0x304, 0x304), (0x302, 0x304)):
+        cases += [{"id": i, "sni": snis[0], "n": 1, "omit": True, "tag": "cfgvers", "cfg_min": lo, "cfg_max": hi} for i in ids]
     evs = [e for e in ctx.drv("hellos", {"cases": cases}) if e["ev"] == "Hello"]
     # PSK parrots without OmitEmptyPsk and without a session legitimately emit nothing / or an error: only
     # hellos that were actually sent are judged (C03 speaks about the ClientHello sent).
